@@ -299,7 +299,8 @@ def gen_world(w):
             pool.append(it)
     for _ in range(w.randint(1, 2)):
         pool.append(gen_fn_item(w, metas))
-    pool.append(gen_cond_item(w))
+    for _ in range(w.randint(1, 3)):
+        pool.append(gen_cond_item(w))
     return membranes, metas, pool
 
 
@@ -420,6 +421,8 @@ def gen_plan(verif_seed, run, deep=False):
                 op["obj"] = o.choice(idx["fn"])
             op["safe"] = o.random() < 0.5
             op["file"] = "files/fn_%d.pv" % n_file
+            if saves["fn"] and o.random() < 0.2:
+                op["file"] = ops_by_id(ops, o.choice(saves["fn"]))["file"]      # saved over an earlier file (user's choice)
             n_file += 1
             if o.random() < 0.3:
                 op["as_str"] = True
@@ -427,7 +430,7 @@ def gen_plan(verif_seed, run, deep=False):
         elif k == "load_fn":
             if not saves["fn"]:
                 continue
-            op["of"] = o.choice(saves["fn"])
+            op["of"] = saves["fn"][-1] if o.random() < 0.4 else o.choice(saves["fn"])
             op["same_mode"] = o.random() < 0.9
         elif k == "save_cond":
             loads = [x for x in ops if x["op"] == "load_cond"]
@@ -436,12 +439,14 @@ def gen_plan(verif_seed, run, deep=False):
             else:
                 op["obj"] = o.choice(idx["cond"])
             op["file"] = "files/cond_%d.json" % n_file
+            if saves["cond"] and o.random() < 0.3:
+                op["file"] = ops_by_id(ops, o.choice(saves["cond"]))["file"]    # saved over an earlier file (user's choice)
             n_file += 1
             saves["cond"].append(op["id"])
         elif k == "load_cond":
             if not saves["cond"]:
                 continue
-            op["of"] = o.choice(saves["cond"])
+            op["of"] = saves["cond"][-1] if o.random() < 0.5 else o.choice(saves["cond"])
         elif k == "load_membrane":
             op["dir"] = o.choice(dirs)
         elif k == "restart":
